@@ -66,6 +66,18 @@ class Ctx:
                                 'UNDECIDED', 'rule could not decide')
                 rr.undecided = str(ex)
                 return rr
+            except (KeyError, IndexError, AttributeError, TypeError,
+                    ValueError) as ex:
+                # the rule tripped over a shape it does not know: it cannot
+                # decide (never a verdict either way)
+                import traceback
+                tb = traceback.extract_tb(ex.__traceback__)[-1]
+                rr = RuleResult('?', getattr(rule_fn, '__name__', 'rule'),
+                                'UNDECIDED', 'rule could not decide')
+                rr.undecided = 'unrecognised shape (%s: %s at %s:%d)' % (
+                    type(ex).__name__, ex, os.path.basename(tb.filename),
+                    tb.lineno)
+                return rr
 
         r = run(self, args)
         self._soft_n = getattr(self, '_soft_n', 0) + 1
